@@ -41,6 +41,7 @@ struct in_jw {
 	unsigned int ku;			/* ghost offset in the 16-byte uuid */
 	unsigned long long rr;			/* ghost record number inside a revoke block */
 	int flags, misc;
+	unsigned int j_first, j_last, j_head, j_tail, j_tail_sequence, j_transaction_sequence, fs_flags;	/* journal_t counters (unit jw_journal_write_*) */
 	long err[JW_NDRAW];			/* results of failing-capable stubs, consumed in order */
 	unsigned int u32[JW_NDRAW];		/* checksum values, first words of data blocks */
 	unsigned char byte[JW_NDRAW];
